@@ -212,6 +212,11 @@ pub fn drive(log: &mut Log) {
             } as usize;
             let (a, b) = (rng.below(256) as u8, 0u8);
             let a = if a == b { 7 } else { a };
+            // the 70 001 case uses only very low byte values (tables indexed by symbol stay tiny)
+            let a = if l == 70_001 { 1 + (a % 15) } else { a };
+            if l == 70_001 {
+                log.oblige("pattern_longer_than_65536_low_bytes");
+            }
             let mut p = vec![a; m];
             p.push(b);
             if !log.begin("comb", json!({"algo": algo, "p": bytes(&p)})) {
@@ -245,6 +250,66 @@ pub fn drive(log: &mut Log) {
                 });
             }
             log.oblige("text_of_a_million_symbols");
+        }
+    }
+    // (a4) texts over a LARGER alphabet than the pattern: every text symbol that is congruent to a
+    // pattern symbol modulo (largest pattern symbol + 1), modulo 64 / 128 / 256-wrapped, or differs from
+    // it in one bit -- symbols a table indexed by "symbol" could alias
+    for algo in ALGOS.iter() {
+        let pats: Vec<Vec<u8>> = vec![
+            vec![0], vec![1], vec![2, 0, 2], vec![0, 1, 0], vec![1, 1], vec![3, 1, 4, 1], vec![67], vec![65, 67, 65],
+            vec![65, 67, 71, 84], vec![127, 5], vec![200, 100, 200], vec![15, 0, 15, 0, 15],
+        ];
+        for p in pats.iter() {
+            case += 1;
+            if !log.mine(case) {
+                continue;
+            }
+            let mut rng = Rng::new(seed, 9, case);
+            let mx = *p.iter().max().unwrap() as usize;
+            let mut aliases: Vec<u8> = vec![];
+            for &c in p.iter() {
+                for k in 1..6usize {
+                    let v = c as usize + k * (mx + 1);
+                    if v < 256 {
+                        aliases.push(v as u8);
+                    }
+                }
+                for bit in 0..8 {
+                    aliases.push(c ^ (1 << bit));
+                }
+                aliases.push(c.wrapping_add(64));
+                aliases.push(c.wrapping_add(128));
+                aliases.push(255 - c);
+            }
+            aliases.retain(|a| !p.contains(a));
+            let mut texts: Vec<Vec<u8>> = vec![];
+            // the pattern with one position replaced by an alias, between two real occurrences
+            for i in 0..p.len() {
+                for &a in aliases.iter() {
+                    let mut t = p.clone();
+                    let mut q = p.clone();
+                    q[i] = a;
+                    t.extend_from_slice(&q);
+                    t.extend_from_slice(p);
+                    t.push(a);
+                    texts.push(t);
+                }
+            }
+            // an alias in front of / behind a partial occurrence
+            for &a in aliases.iter().take(40) {
+                let mut t = vec![a];
+                t.extend_from_slice(&p[1..]);
+                t.extend_from_slice(&p[1..]);
+                t.push(a);
+                t.extend_from_slice(p);
+                texts.push(t);
+            }
+            let n = rng.range(20, 60) as usize;
+            let full: Vec<u8> = (0..=255u8).collect();
+            texts.push(planted(&mut rng, p, n, &full));
+            log.oblige("text_symbols_aliasing_pattern_symbols");
+            run_one(log, "ali", algo, p, &texts);
         }
     }
     // (b) word-size boundaries, periodic families, full byte range
